@@ -29,7 +29,7 @@ def run_known_findings(prop):
     verdicts, _, _ = tlc.validate_traces(traces, shards=1)
     for f, t, v in zip(fs, traces, verdicts):
         keys.add(ledger.trace_key(t))
-        mine = sorted({c for c, _ in v if c.startswith(prop + ".")})
+        mine = sorted({c for c, _ in v if c.startswith(prop + ".") or c.startswith(f"K.{prop}.{f['id']}.")})
         if mine:
             out.append(f"KNOWN-FINDING: property={prop} {f['id']}: {f['what']} [clauses: {', '.join(mine)}]")
         else:
@@ -103,10 +103,15 @@ def run(prop, tier):
     cverd = verdicts[len(traces):]
     verdicts = verdicts[:len(traces)]
 
-    viol, nontrivial, other, structural = ledger.judge(prop, traces, verdicts)
+    known_hits = {}
+    viol, nontrivial, other, structural = ledger.judge(prop, traces, verdicts, known_hits)
     unjudged = {i for i, _ in structural}
     known_lines, known_keys = run_known_findings(prop)
     printed_known = list(known_lines)
+    for f in known_for(prop):
+        if f["id"] in known_hits and not any(f["id"] in l for l in printed_known):
+            printed_known.append(f"KNOWN-FINDING: property={prop} {f['id']}: {f['what']}")
+    printed_known = [l + (f" [{known_hits[f['id']]} generated runs fall in this class]" if f["id"] in l and f["id"] in known_hits else "") for l in printed_known for f in [next((g for g in known_for(prop) if g["id"] in l), {"id": "\0"})]]
 
     # controls: a control derived from an accepted trace must be rejected by a clause of this property
     base_ok = {i for i in range(len(traces)) if not any(not c.startswith("W.") for c, _ in verdicts[i])}
